@@ -1,7 +1,67 @@
-(* family 3: stub, to be filled *)
+(* family 3: sequence counters (spacepackets/seqcount.py), property C19 *)
 From Coq Require Import ZArith List Bool.
-From SP Require Import Base.Result Base.Bytes Run.Marshal.
+From SP Require Import Base.Result Base.Bytes Run.Marshal Model.SeqCount Spec.SeqCountSpec.
 Import ListNotations.
 Open Scope Z_scope.
 
-Definition run_seq (op : Z) (a : args) : args := [[1; 97]].
+Definition file_of (l : list Z) : file := opt_bytes l.
+Definition of_file (f : file) : list Z := of_opt_bytes f.
+
+Definition out_res (r : res Z) : list Z :=
+  match r with Ok v => [0; v] | Err e => [1; err_code e] end.
+
+(* k times next() (restart = true: a new provider object before every call); the values
+   returned, cut at the first exception *)
+Fixpoint rep_next (restart : bool) (w : Z) (fs : file) (k : nat) (acc : list Z) : list Z * file :=
+  match k with
+  | O => (0 :: rev acc, fs)
+  | S k' =>
+      let fs0 := if restart then snd (file_step w fs FRestart) else fs in
+      match file_step w fs0 FNext with
+      | (Some (Ok v), fs1) => rep_next restart w fs1 k' (v :: acc)
+      | (Some (Err e), fs1) => (1 :: err_code e :: rev acc, fs1)
+      | (None, fs1) => ([1; 97], fs1)
+      end
+  end.
+
+(* one history op -> (output line, file afterwards).
+   [0] new provider object, [1] next(), [2] current(), [3] file deleted from outside,
+   4 :: codes  file overwritten from outside, [5; k] k x next(), [6; k] k x (new object; next()) *)
+Definition seq_op (w : Z) (fs : file) (o : list Z) : list Z * file :=
+  match o with
+  | 0 :: _ => ([0], snd (file_step w fs FRestart))
+  | 1 :: _ => match file_step w fs FNext with
+              | (Some r, fs') => (out_res r, fs') | (None, fs') => ([1; 97], fs') end
+  | 2 :: _ => match file_step w fs FCurrent with
+              | (Some r, fs') => (out_res r, fs') | (None, fs') => ([1; 97], fs') end
+  | 3 :: _ => ([0], None)
+  | 4 :: c => ([0], Some c)
+  | 5 :: k :: _ => rep_next false w fs (Z.to_nat k) []
+  | 6 :: k :: _ => rep_next true w fs (Z.to_nat k) []
+  | _ => ([1; 97], fs)
+  end.
+
+Fixpoint seq_history (w : Z) (fs : file) (ops : list (list Z)) : args :=
+  match ops with
+  | [] => []
+  | o :: rest => let '(out, fs') := seq_op w fs o in out :: of_file fs' :: seq_history w fs' rest
+  end.
+
+Fixpoint spec_seq (w start : Z) (n : nat) (i : Z) : list Z :=
+  match n with O => [] | S k => spec_counter w (start + i) :: spec_seq w start k (i + 1) end.
+
+Definition run_seq (op : Z) (a : args) : args :=
+  match op with
+  (* SeqCountProvider(w): n calls from a fresh object *)
+  | 300 => [[0]; mem_run (int 0 0 a) (Z.to_nat (int 0 1 a)) mem_init]
+  (* FileSeqCountProvider(w, file): [[w]; file; op; op; ...]; the history starts with the
+     creation of a provider object *)
+  | 301 => let w := int 0 0 a in
+           let fs0 := file_new (file_of (lst 1 a)) in
+           [0] :: of_file fs0 :: seq_history w fs0 (tl (tl a))
+  (* exploration-only stream (non-ASCII content, outside the model's alphabet): constant *)
+  | 302 => [[0]; [1]]
+  (* Spec side: the n values a counter of width w returns starting at call number `start` *)
+  | 350 => [[0]; spec_seq (int 0 0 a) (int 0 1 a) (Z.to_nat (int 0 2 a)) 0]
+  | _ => [[1; 97]]
+  end.
